@@ -11,12 +11,6 @@ descriptor and `d'` = what the grammar model reads from the model's text: where 
 namespace J5V.Print.Cover
 open J5V.Print J5V.Print.Layout J5V.Print.OptionText
 
-def leadOnlyB (l : Loc) : Bool := l.detached.isEmpty && l.trailing == ""
-
-theorem leadOnlyB_sound {l : Loc} (h : leadOnlyB l = true) : l.leadOnly := by
-  simp only [leadOnlyB, Bool.and_eq_true, beq_iff_eq, List.isEmpty_iff] at h
-  exact ⟨h.1, h.2⟩
-
 def sameLeadB (l l' : Loc) : Bool := l'.detached.isEmpty && l'.trailing == "" && l'.leading == l.leading
 
 theorem sameLeadB_sound {l l' : Loc} (h : sameLeadB l l' = true) : Loc.sameLead l l' := by
